@@ -1,4 +1,4 @@
-\* C12: basic table (<= 2 rules over a 3x3 alphabet, clusters cb / ADVANCED_MODE) or none,
+\* C12: basic table (<= MaxLRules rules over a 3x3 alphabet, clusters cb / ADVANCED_MODE) or none,
 \* advanced list of <= MaxAdv rules over conditions {T,F,H,P} and clusters {c1,c2} or none, 9 requests
 CONSTANTS
   Star <- StarL
@@ -8,6 +8,7 @@ CONSTANTS
   Alpha = "small"
   MaxRules = 2
   MaxAdv = @ADV@
+  MaxLRules = @LRULES@
 INIT Init
 NEXT Next
 INVARIANTS MRefinesP PShape POrder
